@@ -11,6 +11,20 @@ pub struct Seed {
     pub big: bool,
 }
 
+/// Positions with (nearly) as many legal moves as a legal position can have: 218 (both known records), 148 and 133,
+/// each also with the colours swapped. Visited by F-REACH to depth 1 only (their trees explode).
+pub fn many_move_seeds() -> Vec<Seed> {
+    let s = |name, fen| Seed { name, fen, big: true };
+    vec![
+        s("moves-218a", "R6R/3Q4/1Q4Q1/4Q3/2Q4Q/Q4Q2/pp1Q4/kBNN1KB1 w - - 0 1"),
+        s("moves-218a-b", "Kbnn1kb1/PP1q4/q4q2/2q4q/4q3/1q4q1/3q4/r6r b - - 0 1"),
+        s("moves-218b", "3Q4/1Q4Q1/4Q3/2Q4R/Q4Q2/3Q4/1Q4Rp/1K1BBNNk w - - 0 1"),
+        s("moves-218b-b", "1k1bbnnK/1q4rP/3q4/q4q2/2q4r/4q3/1q4q1/3q4 b - - 0 1"),
+        s("moves-148", "R6R/8/1Q4Q1/4Q3/7Q/5Q2/pp6/kBNN1KB1 w - - 0 1"),
+        s("moves-133", "7R/8/1Q4Q1/4Q3/7Q/5Q2/pp6/kBN2K2 w - - 0 1"),
+    ]
+}
+
 pub fn seeds() -> Vec<Seed> {
     let s = |name, fen, big| Seed { name, fen, big };
     vec![
